@@ -81,6 +81,11 @@ def menu(ctx: Ctx, rng: random.Random) -> list[dict]:
         # ... and whose bank-identifying fields are cut differently (both banks are listed)
         {"op": "iban.bank", "t": cps("DK" + gen.check_digits("DK", "10010000000018") + "10010000000018")},
         {"op": "iban.bank", "t": cps("FI" + gen.check_digits("FI", "10010000000018") + "10010000000018")},
+        # XK: in the IBAN table, not an ISO 3166 country - reading everything about an XK IBAN (its country
+        # object too) must not teach the BIC side a new country
+        {"op": "iban.parts", "t": cps("XK051212012345678906"), "ai": False},
+        {"op": "bic.new", "t": cps("NCBVXKPR"), "strict": False},
+        {"op": "bic.is_valid", "t": cps("NCBVXKPRXXX"), "strict": False},
         {"op": "iban.new", "t": cps("NO7586011117948"), "vb": False},
         {"op": "bic.new", "t": cps("1234DEWWXXX"), "strict": False},
         {"op": "bic.validate", "t": cps("1234DEWWXXX"), "strict": True},
